@@ -226,7 +226,7 @@ impl<'a> ConstraintValidator<'a> {
         let index_root = index_relation.root();
 
         // Build the key from the indexed columns
-        let mut key_bytes: Vec<u8> = Vec::new();
+        let mut key_values: Vec<&DataType> = Vec::new();
         let mut has_null = false;
 
         for &col_idx in index.indexed_column_ids() {
@@ -237,14 +237,25 @@ impl<'a> ConstraintValidator<'a> {
                     has_null = true;
                     break;
                 }
-                let serialized = values[col_idx].serialize()?;
-                key_bytes.extend_from_slice(&serialized);
+                key_values.push(&values[col_idx]);
             }
         }
 
         // Skip uniqueness check if any indexed column is NULL
         if has_null && skip_nulls {
             return Ok(false);
+        }
+
+        // Every key is read back at the alignment of its type (see `CellComparator::compare_keys`),
+        // so a key that follows a narrower one has to be written with the same padding.
+        let mut key_size = 0usize;
+        for key in &key_values {
+            key_size = key_size.next_multiple_of(key.align()) + key.runtime_size();
+        }
+        let mut key_bytes = vec![0u8; key_size];
+        let mut cursor = 0usize;
+        for key in &key_values {
+            cursor = key.write_to(&mut key_bytes, cursor)?;
         }
 
         // Search in the index
